@@ -256,7 +256,7 @@ package base
 // smallest recorded rt over the buckets of the window, never above the default cap, never below 1
 //@ func (m *SlidingWindowMetric) MinRT() r
 //@   pure
-//@   props C08
+//@   props C08, C07
 //@   requires viewOK(m) && bucketsOK(m.real.data, base.MetricEventRt)
 //@   ensures[not-above-any-bucket-of-the-window] forall i Int :: 0 <= i && i < m.real.data.array.length && clock_ms > 0 && live(m.real.data, clock_ms, m.real.data.array.data[i]) && inWindow(m, clock_ms, m.real.data.array.data[i].BucketStart) ==> r <= R(max(1, bucketOf(m.real.data.array.data[i]).minRt))
 //@   ensures[capped-and-at-least-one] 1.0 <= r && r <= R(base.DefaultStatisticMaxRt)
